@@ -399,6 +399,7 @@ func registerIntrinsics(e *Engine) {
 	registerSpecModel(e)
 	registerCloneModels(e)
 	registerStrconvModels(e)
+	registerTrimModels(e)
 }
 
 // ---------------------------------------------------------------------------
@@ -922,7 +923,7 @@ func registerRegexpModels(e *Engine) {
 		re := reOf(x, a[0])
 		s, ok := cs(a[1])
 		if !ok {
-			s = x.concretizeByRegex(re, a[1].(*StrVal))
+			return x.reFindStringSubmatch(re, a[1].(*StrVal)), true
 		}
 		m := re.FindStringSubmatch(s)
 		if m == nil {
@@ -934,7 +935,11 @@ func registerRegexpModels(e *Engine) {
 		re := reOf(x, a[0])
 		s, ok := cs(a[1])
 		if !ok {
-			panic(unsupported("FindStringIndex on symbolic string"))
+			caps := x.reFind(re, x.pickAlt(a[1].(*StrVal)), 0)
+			if caps == nil {
+				return &SliceVal{Nil: true}, true
+			}
+			return mkSlice([]Value{mkBV(64, uint64(caps[0])), mkBV(64, uint64(caps[1]))}), true
 		}
 		m := re.FindStringIndex(s)
 		if m == nil {
@@ -946,8 +951,11 @@ func registerRegexpModels(e *Engine) {
 		re := reOf(x, a[0])
 		s, ok1 := cs(a[1])
 		r, ok2 := cs(a[2])
-		if !ok1 || !ok2 {
-			panic(unsupported("ReplaceAllString on symbolic string"))
+		if !ok2 {
+			panic(unsupported("ReplaceAllString with symbolic replacement"))
+		}
+		if !ok1 {
+			return x.reReplaceAll(re, a[1].(*StrVal), r), true
 		}
 		return mkStr(re.ReplaceAllString(s, r)), true
 	}
